@@ -105,7 +105,7 @@ Section Cluster.
     (request_bound start < fuel)%nat ->
     exists mpages,
       merged_keys compile fuel dbs d reverse table start pat has_count count = (mpages, Done) /\
-      Permutation (concat mpages) (concat (map (part_result start) (seq 0 np))) /\
+      Permutation (concat (map fst mpages)) (concat (map (part_result start) (seq 0 np))) /\
       (length mpages <= Nat.max 1 (request_bound start))%nat.
   Proof.
     intro Hfuel. unfold merged_keys. fold np. fold call.
